@@ -19,15 +19,20 @@ BATCH_REF = ["sse2", "avx2", "avx512f", "fma3<avx2>"]
 
 
 def body(ctx):
-    if ctx.replay:
-        raise vf.InfraError("C17 replays: use the owning family check (C01/C02/C03/C07/C08) with the replay file")
     ctx.model("LaneEquiv.tla", "LaneEquivQuick.cfg", timeout=900)
     only = ["scalar"]
+    rp = {"int": [], "float": [], "bool": [], "cvt": [], "math": []}
+    if ctx.replay:
+        # a replay file holds plan lines of one of the five sub-families; the line itself says which
+        for line in lanes.replay_plan(ctx.replay):
+            f = line.split()
+            fam = "bool" if f[0] in ("cmp", "sel") else "cvt" if f[0] == "cv" else "math" if f[0] in ("m1", "m1i", "m2") else "float" if f[2] in ("f32", "f64") else "int"
+            rp[fam].append(line)
     # --- the scalar slice of the exact operations: the same lane relations as the batch kernels
-    ip = c01.make_plan(ctx) + c07.make_plan(ctx)
+    ip = rp["int"] if ctx.replay else c01.make_plan(ctx) + c07.make_plan(ctx)
     # clip for integers and floats
     rng = ctx.rng
-    for t, nb, sg in c01.ITYPES:
+    for t, nb, sg in ([] if ctx.replay else c01.ITYPES):
         bits = 8 * nb
         lat = vf.int_lattice(bits)[:: ctx.q(4, 1)]
         tr = []
@@ -36,12 +41,14 @@ def body(ctx):
             tr.append((rng.choice(lat + [rng.getrandbits(bits)]), lo, hi))
         for ra, rb, rc in vf.rows_from(tr, nb, (0,)):
             ip.append("ew clip %s 0 %s %s %s -" % (t, ra, rb, rc))
-    ev, ip = lanes.record(ctx, "int", ip, "c17int", archsets=("x86",), only=None if False else ["scalar", "sse2", "avx2"])
+    ev = []
+    if ip:
+        ev, ip = lanes.record(ctx, "int", ip, "c17int", archsets=("x86",), only=None if False else ["scalar", "sse2", "avx2"])
     ev = [e for e in ev if "scalar" in e["archs"] or e["op"] == "clip"]
     ctx.log("integer events involving the scalar overloads: %d" % len(ev))
     lanes.validate(ctx, "T_Int.tla", ev, "c17int", plan_lines=ip)
-    fp = c02.make_plan(ctx) + [l for l in c08.make_plan(ctx) if " nearbyint_as_int " in l]
-    for t, nb, E, M in c02.FT:
+    fp = rp["float"] if ctx.replay else c02.make_plan(ctx) + [l for l in c08.make_plan(ctx) if " nearbyint_as_int " in l]
+    for t, nb, E, M in ([] if ctx.replay else c02.FT):
         bits = 8 * nb
         tr = []
         for _ in range(ctx.q(300, 5000)):
@@ -49,29 +56,35 @@ def body(ctx):
             tr.append((rng.choice([c02.moderate(bits, E, M, rng), rng.choice(vf.float_lattice(bits))]), fpgen.f2b(lo, bits), fpgen.f2b(hi, bits)))
         for ra, rb, rc in vf.rows_from(tr, nb, (0,)):
             fp.append("ew clip %s 0 %s %s %s -" % (t, ra, rb, rc))
-    ev, fp = lanes.record(ctx, "float", fp, "c17flt", archsets=("x86",), only=["scalar", "sse2", "avx2"])
+    ev = []
+    if fp:
+        ev, fp = lanes.record(ctx, "float", fp, "c17flt", archsets=("x86",), only=["scalar", "sse2", "avx2"])
     ev = [e for e in ev if "scalar" in e["archs"] or e["op"] == "clip"]
     ctx.log("floating-point events involving the scalar overloads: %d" % len(ev))
     lanes.validate(ctx, "T_Float.tla", ev, "c17flt", plan_lines=fp)
-    bp = [l for l in c03.make_plan(ctx) if l.startswith("cmp ") or l.startswith("sel ")][:: ctx.q(3, 1)]
-    ev, bp = lanes.record(ctx, "bool", bp, "c17cmp", archsets=("x86",), only=only)
+    bp = rp["bool"] if ctx.replay else [l for l in c03.make_plan(ctx) if l.startswith("cmp ") or l.startswith("sel ")][:: ctx.q(3, 1)]
+    ev = []
+    if bp:
+        ev, bp = lanes.record(ctx, "bool", bp, "c17cmp", archsets=("x86",), only=only)
     ctx.log("comparison/select events of the scalar overloads: %d" % len(ev))
     lanes.validate(ctx, "T_Bool.tla", c03.split_src(ev), "c17cmp", plan_lines=bp)
-    cp = []
-    for t, nb, to in (("f32", 4, "int32_t"), ("i32", 4, "float"), ("f32", 4, "uint32_t"), ("u32", 4, "float"), ("f64", 8, "int64_t"), ("i64", 8, "double"),
+    cp = list(rp["cvt"])
+    for t, nb, to in () if ctx.replay else (("f32", 4, "int32_t"), ("i32", 4, "float"), ("f32", 4, "uint32_t"), ("u32", 4, "float"), ("f64", 8, "int64_t"), ("i64", 8, "double"),
                       ("f64", 8, "uint64_t"), ("u64", 8, "double")):
         vals = (vf.float_lattice(8 * nb) if t[0] == "f" else vf.int_lattice(8 * nb)) + [rng.getrandbits(8 * nb) for _ in range(64)]
         for v in vals:
             cp.append("cv bitwise_cast:%s %s 0 %s - - -" % (to, t, vf.hexrow(vf.pack_lanes([v], nb)).ljust(128, "0")))
-    ev, cp = lanes.record(ctx, "cvt", cp, "c17cvt", archsets=("x86",), only=only)
+    ev = []
+    if cp:
+        ev, cp = lanes.record(ctx, "cvt", cp, "c17cvt", archsets=("x86",), only=only)
     names = {"int32_t": "i32", "uint32_t": "u32", "float": "f32", "int64_t": "i64", "uint64_t": "u64", "double": "f64"}
     for e in ev:
         e["op"], to = e["op"].split(":")
         e["to"] = names[to]
     lanes.validate(ctx, "T_Cvt.tla", ev, "c17cvt", plan_lines=cp)
     # --- elementary functions and integer-exponent pow: scalar result against the batch result of the same value
-    mp = []
-    for t, nb, E, M in c02.FT:
+    mp = list(rp["math"])
+    for t, nb, E, M in ([] if ctx.replay else c02.FT):
         bits = 8 * nb
         vals = vf.float_lattice(bits) + [fpgen.f2b((rng.random() - 0.5) * 2.0 ** rng.randint(-8, 8), bits) for _ in range(ctx.q(300, 20000))]
         vals += [fpgen.f2b((rng.random() + 0.5) * 2.0 ** rng.randint(-30, 30), bits) for _ in range(ctx.q(100, 5000))]
@@ -82,7 +95,9 @@ def body(ctx):
         for r in rows[:: ctx.q(4, 1)]:
             for n in (0, 1, 2, 3, -1, -2, 5, 10, -7, 31):
                 mp.append("m1i ipow %s %d %s - - -" % (t, n, r))
-    ev, mp = lanes.record(ctx, "math", mp, "c17math", archsets=("x86",), only=["scalar"] + BATCH_REF, watchdog_ms=2000)
+    ev = []
+    if mp:
+        ev, mp = lanes.record(ctx, "math", mp, "c17math", archsets=("x86",), only=["scalar"] + BATCH_REF, watchdog_ms=2000)
     byline = lanes.results_by_line(ev)
     out = [e for e in ev if e["k"] == "fault"]
     for i, line in enumerate(mp):
